@@ -5,9 +5,9 @@ import json, os, shutil, subprocess, sys
 prop, x, dest = sys.argv[1:4]
 cmd = " ".join(sys.argv[4:])
 gen = os.environ.get("SEEDGEN", "1")
-src = {"1": "/tmp/wt-%s/SEED/%s", "2": "/tmp/wt2-%s/SEED/%s", "3": "/tmp/wt3-%s/SEED/%s"}[gen] % (prop, x)
+src = {"1": "/tmp/wt-%s/SEED/%s", "2": "/tmp/wt2-%s/SEED/%s", "3": "/tmp/wt3-%s/SEED/%s", "4": "/tmp/wt4-%s/SEED/%s"}[gen] % (prop, x)
 wt = "/tmp/confirm-%s-%s" % (prop, x)
-store = {"1": {"a": "a", "b": "b"}, "2": {"a": "c", "b": "d"}, "3": {"a": "e", "b": "f"}}[gen][x]
+store = {"1": {"a": "a", "b": "b"}, "2": {"a": "c", "b": "d"}, "3": {"a": "e", "b": "f"}, "4": {"a": "g", "b": "h"}}[gen][x]
 env = dict(os.environ, GOFLAGS="-mod=mod", GOPROXY="off", GOSUMDB="off", GOTOOLCHAIN="local")
 def sh(c, cwd=wt):
     p = subprocess.run(c, shell=True, cwd=cwd, env=env, stdout=subprocess.PIPE, stderr=subprocess.STDOUT, text=True)
